@@ -16,6 +16,8 @@ For every generated value x of the twelve pyvizier wire types:
                                         GetTrial on a VizierServicer over SQLite
   M5  ParameterType.CUSTOM              has no wire form: to_proto must refuse
                                         with ValueError (documented refusal)
+  M6  strict_validation=True            ParameterConfigConverter.from_proto must accept
+                                        every proto the library itself produced
 """
 import json
 import math
@@ -80,8 +82,8 @@ REQUIRED_COUNTERS = (['roundtrips:' + k for k in KINDS]
                         'seen:depth>=3', 'seen:multi-parent-values', 'seen:metadata:proto',
                         'seen:metadata:ns-separator', 'seen:time:microsecond-fraction',
                         'seen:trial:INFEASIBLE', 'seen:trial:STOPPING', 'seen:safety:zero',
-                        'custom_param_refusals'])
-MIN_DISTINCT = {'quick': 3000, 'thorough': 30000}
+                        'custom_param_refusals', 'strict_validations'])
+MIN_DISTINCT = {'quick': 1500, 'thorough': 30000}
 
 # schedule: weight of each kind in the case index cycle
 SCHEDULE = (['StudyConfig'] * 4 + ['ParameterConfig'] * 3 + ['Trial'] * 4
@@ -356,6 +358,19 @@ def check_value(ctx, kind, desc, index):
       ctx.violation(f'second-conversion-differs:{kind}',
                     f'{kind}: to_proto(from_proto(to_proto(x))) is not identical to to_proto(x)',
                     case, {'first': L.proto_text(p1), 'second': L.proto_text(p2)})
+  # ---- strict validation accepts what the library itself produced --------------
+  if kind == 'ParameterConfig':
+    ctx.count('strict_validations')
+    try:
+      from_proto(p1, strict_validation=True)
+    except ValueError as e:
+      if mechs:
+        ctx.count('strict_validation_rejections_attributed_to_reported_value_loss')
+      else:
+        ctx.violation('strict-validation-rejects-own-proto:ParameterConfig',
+                      _oneline('ParameterConfigConverter.from_proto(to_proto(x), strict_validation=True) '
+                               f'raised although the documented condition from_proto(p).to_proto == p is '
+                               f'what the property demands: {e}'), case)
   # ---- M3 the real wire bytes ------------------------------------------------
   try:
     if isinstance(p1, (list, tuple)):
@@ -551,7 +566,14 @@ def gen_case(rng, kind):
 
 def run_one(ctx, svc, kind, desc, index):
   if kind.startswith('Service:'):
-    check_service(ctx, svc, kind, desc, index)
+    try:
+      check_service(ctx, svc, kind, desc, index)
+    except Exception as e:  # pylint: disable=broad-except
+      # a legal value written through the public RPCs must be storable and readable
+      ctx.violation(f'service-slice-raised:{kind}:{type(e).__name__}',
+                    _oneline(f'{kind}: writing / reading the value through the servicer raised '
+                             f'{type(e).__name__}: {e}'),
+                    {'kind': kind, 'desc': desc, 'index': index})
   elif kind == 'CustomRefusal':
     check_custom_refusal(ctx)
   else:
